@@ -539,6 +539,9 @@ class Ctx:
         self.exhaustive = False
         self.translated = None
         self.build_failed = False
+        self.report_tier = tier            # what the evidence / OK line call this run (an escalated pass keeps the requested tier)
+        self.defer_ok = False              # do not print the OK line (a further pass follows)
+        self.prior_passes = []             # summaries of earlier passes of the same invocation
 
     # -- phase 1: translator + proofs -----------------------------------------------------
     def translate(self):
@@ -723,11 +726,13 @@ class Ctx:
             "known_findings_hit": [k["id"] for k in self.known_hits],
             "notes": self.notes,
         }
+        if self.prior_passes:
+            cov["earlier_passes_of_this_run"] = self.prior_passes
         if extra_coverage:
             cov.update(extra_coverage)
         ev = {
             "property_id": self.pid,
-            "tier": self.tier,
+            "tier": self.report_tier,
             "seed": self.seed,
             "level": "proof",
             "coverage": cov,
@@ -739,10 +744,68 @@ class Ctx:
             json.dump(ev, f, indent=1)
         for l in lines:
             print(l, flush=True)
-        if exit_code == 0:
-            print("OK property=%s tier=%s obligations=%d/%d evaluations=%d wall=%.1fs" %
-                  (self.pid, self.tier, n_dis, n_obl, self.evaluations, time.time() - self.t0), flush=True)
+        self.summary = {"generator_tier": self.tier, "seed": self.seed, "evaluations": self.evaluations,
+                        "distinct_nontrivial": len(self.nontrivial), "wall_s": round(time.time() - self.t0, 1), "violations": n_viol}
+        if exit_code == 0 and not self.defer_ok:
+            ev_total = self.evaluations + sum(p.get("evaluations", 0) for p in self.prior_passes)
+            print("OK property=%s tier=%s obligations=%d/%d evaluations=%d wall=%.1fs%s" %
+                  (self.pid, self.report_tier, n_dis, n_obl, ev_total, time.time() - self.t0 + sum(p.get("wall_s", 0) for p in self.prior_passes),
+                   (" passes=%d" % (len(self.prior_passes) + 1)) if self.prior_passes else ""), flush=True)
         return exit_code
+
+
+# ------------------------------------------------------------------------------------------
+# escalation: when the sources a property's model covers differ from the audited baseline, the quick command spends more
+# search effort (denser generators / further seeds) before it says OK.  It never turns a difference into a verdict by itself.
+# ------------------------------------------------------------------------------------------
+BASELINE = os.path.join(VERIF, "lib", "source_baseline.json")
+
+GROUPS = {
+    "GEN": ["src/generate.rs", "src/buckets.rs", "src/pearson.rs", "src/generate/", "src/hash/checksum.rs", "src/hash/qratios.rs",
+            "src/hash/body.rs", "src/length.rs", "src/params.rs", "src/intrinsics.rs", "src/macros.rs"],
+    "HEX": ["src/hash.rs", "src/parse/", "src/hash/", "src/length.rs", "src/errors.rs", "src/params.rs", "src/macros.rs"],
+    "DIST": ["src/compare.rs", "src/compare/", "src/hash.rs", "src/hash/", "src/length.rs", "src/params.rs", "src/macros.rs"],
+    "EASY": ["src/compare_easy.rs", "src/generate_easy.rs", "src/generate_easy_std.rs", "src/errors.rs"],
+    "ALL": ["src/", "Cargo.toml", "build.rs"],
+}
+PROPERTY_SOURCES = {
+    "C01": ["GEN"], "C02": ["DIST"], "C03": ["GEN"], "C04": ["HEX"], "C05": ["HEX"], "C06": ["HEX"], "C07": ["ALL"], "C08": ["DIST"],
+    "C09": ["src/length.rs"], "C10": ["GEN", "src/errors.rs"], "C11": ["GEN"], "C12": ["EASY", "src/generate.rs"],
+    "C13": ["EASY", "src/hash.rs", "src/compare.rs"], "C14": ["HEX"], "C15": ["HEX", "src/pearson.rs", "src/generate.rs"],
+    "C16": ["HEX"], "C17": ["ALL"], "C18": ["ALL"],
+}
+
+
+def source_hashes():
+    root = os.path.join(REPO, "fast-tlsh")
+    out = {}
+    for base, _, files in os.walk(os.path.join(root, "src")):
+        for f in files:
+            if f.endswith(".rs"):
+                p = os.path.join(base, f)
+                out[os.path.relpath(p, root)] = hashlib.sha256(open(p, "rb").read()).hexdigest()[:20]
+    for f in ("Cargo.toml", "build.rs"):
+        p = os.path.join(root, f)
+        if os.path.exists(p):
+            out[f] = hashlib.sha256(open(p, "rb").read()).hexdigest()[:20]
+    return out
+
+
+def changed_sources(pid):
+    """files covered by pid's model whose content differs from the audited baseline (lib/source_baseline.json)"""
+    try:
+        base = json.load(open(BASELINE))["files"]
+    except Exception:  # noqa: BLE001 -- no baseline: behave as if nothing is known to have changed
+        return []
+    now = source_hashes()
+    prefixes = []
+    for g in PROPERTY_SOURCES.get(pid, ["ALL"]):
+        prefixes += GROUPS.get(g, [g])
+    out = []
+    for f in sorted(set(base) | set(now)):
+        if base.get(f) != now.get(f) and any(f == p or (p.endswith("/") and f.startswith(p)) for p in prefixes):
+            out.append(f)
+    return out
 
 
 COMMON_TRUSTED = [
